@@ -42,6 +42,11 @@ def probe_fixed_count(spec, obs, rng):
         vals = [float(v) * float(raw["scale"]) for v in raw["vs"]]
         peak, last = math.ceil(max(vals)), math.ceil(vals[-1])
         choices = [peak, peak + 1, max(1, peak - 1), max(1, last), max(1, (last + peak) // 2)]
+        mx = max(vals)
+        if mx > 0 and abs(mx - round(mx)) > 1e-6:
+            # counts need not be whole numbers: one between the peak need and its ceiling (whole machines are needed: the
+            # model must refuse it), one half an instance above the ceiling (honoured exactly)
+            choices += [round((mx + math.ceil(mx)) / 2, 6), round((mx + math.ceil(mx)) / 2, 6), math.ceil(mx) + 0.5]
         f = rng.choice(choices)
         sp = copy.deepcopy(spec)
         sp[kind][name]["fixed_nb_of_instances"] = {"m": float(f), "u": "dimensionless"}
